@@ -6,6 +6,10 @@ HOOK_COMMITS = ["db46fe7"]
 
 # id -> technique (the deciding method, in a few words)
 TECH = {
+ "C03": "proptest over stdlib calls (189 functions x generated argument tuples seeded from the functions' own examples, literal / exact-typed / any-typed positions) in killable workers: result membership in the declared type, return_kind mask, infallible-typed calls never fail; failures classified by signature",
+ "C05": "proptest over stdlib calls with per-call deadlines enforced on killable workers (5 s, then 20 s CPU alone) and an output-growth bound; failures classified by signature",
+ "C14": "proptest: compile-twice / other-thread equality, fresh vs cleared-and-reused Runtime after event histories, N threads sharing one Arc<Program> against a sequential baseline",
+ "C34": "metamorphic proptest over deliberately sloppy programs: every unused-result warning's span is replaced by `null` and the two programs are compared on the same event",
  "C04": "mutation-based and generative proptest with a no-panic oracle over compile -> render diagnostics -> final_type_info -> run: corpus mutation (26 kinds), token soup, generated programs, stdlib calls in killable workers",
  "C12": "two-pass metamorphic proptest: definition x perturbations x constant-dependent probe; the program with the variable vs the program with the literal of its observed runtime value",
  "C15": "proptest over mutation-heavy programs x read-only path sets x events: values at read-only paths compared before/after every accepted run",
